@@ -12,12 +12,16 @@ F31 = 'e31_abcdefghijklmnopqrstuvwxyza'   # 31-character field name of enum type
 C_SYMS = ['Red', 'Green', 'Blue', 'Alpha']
 U_NAMES = {'NONE': 0, 'T': 1, 'S': 2, 'str': 3}
 
+# union vector fields whose names have every length 90..100 (the documented maximum) and two beyond it (101, 105)
+UVNAMES = [('w%d_' % n) + 'x' * (n - len('w%d_' % n)) for n in list(range(90, 101)) + [101, 105]]
+
 # field order of table T = print order; kind drives JSON and model construction
 T_FIELDS = [('i', 'int'), ('d', 'double'), ('s', 'string'), ('b', 'b64'), ('bu', 'b64url'), ('t', 'table'),
             ('tv', 'tablevec'), ('u', 'union'), ('uv', 'unionvec'), ('st', 'S'), ('q', 'Q'), ('sv', 'Svec'),
             ('strs', 'strvec'), ('iv', 'intvec'), ('e', 'E'), ('c', 'C'), ('ev', 'Evec'), ('cv', 'Cvec'),
             ('nest', 'table'), ('o', 'optint'), ('f', 'float'), ('bo', 'bool'), ('u64', 'int'), ('dv', 'doublevec'),
-            (LN, 'int'), (LU, 'unionvec'), (F31, 'E')]
+            (LN, 'int'), (LU, 'unionvec'), (F31, 'E')] + [(n, 'unionvec') for n in UVNAMES if len(n) <= 100] + [('t2', 'table2')]
+T2_FIELDS = [('i', 'int')] + [(n, 'unionvec') for n in UVNAMES if len(n) > 100]
 SCALAR_DEFAULTS = {'i': 0, 'd': 0.0, 'e': 0, 'c': 1, 'f': 0.0, 'bo': False, 'u64': 0, LN: 0, F31: 0}
 
 
@@ -74,9 +78,9 @@ def member_json(kind, val):
     return b'null'
 
 
-def t_json(t):
+def t_json(t, fields=None):
     parts = []
-    for name, kind in T_FIELDS:
+    for name, kind in (fields or T_FIELDS):
         if name not in t: continue
         v = t[name]; n = b'"' + name.encode() + b'":'
         if kind in ('int', 'double', 'float', 'bool', 'optint', 'E', 'C'): parts.append(n + jnum(v))
@@ -84,6 +88,7 @@ def t_json(t):
         elif kind == 'b64': parts.append(n + b'"' + base64.b64encode(v) + b'"')
         elif kind == 'b64url': parts.append(n + b'"' + base64.urlsafe_b64encode(v) + b'"')
         elif kind == 'table': parts.append(n + t_json(v))
+        elif kind == 'table2': parts.append(n + t_json(v, T2_FIELDS))
         elif kind == 'tablevec': parts.append(n + b'[' + b','.join(t_json(x) for x in v) + b']')
         elif kind == 'union':
             parts.append(b'"' + name.encode() + b'_type":"' + v[0].encode() + b'"')
@@ -177,11 +182,11 @@ def scalar_tok(name, kind, v, fmt):
     return tok_num(str(v))
 
 
-def tok_t(t, fmt, force):
+def tok_t(t, fmt, force, fields=None):
     """model value of a table: the fields the printer prints, in print order. force = flatcc_json_printer_f_force_default.
     Scalars equal to their default are not stored by the parser, so they print only with force."""
     fs = []
-    for name, kind in T_FIELDS:
+    for name, kind in (fields or T_FIELDS):
         if name in SCALAR_DEFAULTS and kind != 'optint':
             d = SCALAR_DEFAULTS[name]
             if name in t and t[name] != d: fs.append(tok_field(name, scalar_tok(name, kind, t[name], fmt)))
@@ -194,6 +199,7 @@ def tok_t(t, fmt, force):
         elif kind == 'b64': fs.append(tok_field(name, ['B', hx(base64.b64encode(v))]))
         elif kind == 'b64url': fs.append(tok_field(name, ['B', hx(base64.urlsafe_b64encode(v))]))
         elif kind == 'table': fs.append(tok_field(name, tok_t(v, fmt, force)))
+        elif kind == 'table2': fs.append(tok_field(name, tok_t(v, fmt, force, T2_FIELDS)))
         elif kind == 'tablevec': fs.append(tok_field(name, tok_vec('s', [tok_t(x, fmt, force) for x in v])))
         elif kind == 'union':
             fs.append(['U', hx(name.encode())] + tok_utype(v[0]) + ['1'] + tok_member(v[0], v[1], fmt, force))
